@@ -479,11 +479,22 @@ def str_consts(fn):
 
 
 def char_consts(fn):
-    return {v for v, ty in consts_of(fn) if ty == "char"}
+    """character constants: operands of type char and the values of `match ch {..}` switches."""
+    out = set()
+    for v, ty in consts_of(fn):
+        if ty == "char":
+            if isinstance(v, int) and not isinstance(v, bool):
+                try:
+                    out.add(chr(v))
+                except (ValueError, OverflowError):
+                    pass
+            elif isinstance(v, str):
+                out.add(v)
+    return out
 
 
 def int_consts(fn):
-    return {v for v, ty in consts_of(fn) if isinstance(v, int) and not isinstance(v, bool)}
+    return {v for v, ty in consts_of(fn) if isinstance(v, int) and not isinstance(v, bool) and ty != "char"}
 
 
 def calls_to(fn, fx, pred):
